@@ -7,5 +7,4 @@ def run(ctx):
                         "mathz.Swap is driven with two distinct variables only (with a == b the XOR swap zeroes the variable: noted in DESIGN.md, outside the listed properties)"]
 
 def replay(ctx, rp):
-    vlib.log("replay: the file holds the concrete input; re-run ./check X02")
-    return 2
+    return vlib.replay_any(ctx, rp)
